@@ -39,6 +39,9 @@ class Ctx:
         self.cov = {}
         self.violations = []     # (what, replay_path)
         self.known = []          # (finding id, what)
+        self.selftest = 0        # number of corrupted sequences per trace (binding demonstration)
+        self.selftest_results = {}
+        self._in_selftest = False
         shutil.rmtree(os.path.join(REPLAYS, prop), ignore_errors=True)   # replays belong to one run
 
     def dir(self, name):
@@ -314,7 +317,114 @@ def validate_chunks(ctx, module, cfg, trace_path, consts, chunk_lines=40000, nam
                         failures.append((ls, line - acc, msg))
                         break
                     acc += len(ls)
+    run_selftest(ctx, "det", module, cfg, trace_path, consts, name)
     return len(seqs) - len(failures), failures
+
+
+JUDGED = ("ret", "v", "val", "n", "count", "present", "scan", "gets", "stored", "result", "got", "list", "readback", "copies",
+          "primaries", "backups", "gone", "applied", "outv", "after", "before", "views", "holds", "msgs", "yielded", "keys", "obs",
+          "get", "range", "stats", "check", "ttl", "ttlms", "raw", "neighbours", "names", "coordinators", "lists")
+
+
+def _corrupt_value(x, rng):
+    if isinstance(x, bool):
+        return not x
+    if isinstance(x, int):
+        return x + 1 + rng.randrange(3)
+    if isinstance(x, str):
+        swaps = {"ok": "notfound", "notfound": "val", "val": "notfound", "found": "ok", "none": "val", "num": "notfound", "nil": "zz"}
+        return swaps.get(x, x + "~")
+    if isinstance(x, list):
+        if x and rng.random() < 0.5:
+            return x[:-1]
+        if x and isinstance(x[0], (dict, list)):
+            y = json.loads(json.dumps(x))
+            i = rng.randrange(len(y))
+            y[i] = _corrupt_in(y[i], rng)
+            return y
+        return x + ["bogus~"]
+    if isinstance(x, dict):
+        return _corrupt_in(x, rng)
+    return x
+
+
+def _corrupt_in(obj, rng):
+    """Changes one judged field somewhere in a JSON value; returns the changed copy (or the same value)."""
+    if isinstance(obj, dict):
+        keys = [k for k in obj if k in JUDGED]
+        if not keys:
+            return obj
+        k = rng.choice(keys)
+        o = dict(obj)
+        o[k] = _corrupt_value(obj[k], rng)
+        return o
+    if isinstance(obj, list) and obj:
+        y = list(obj)
+        i = rng.randrange(len(y))
+        y[i] = _corrupt_in(y[i], rng)
+        return y
+    return obj
+
+
+def corrupted_copy(ctx, trace_path, n, name, only_types=None):
+    """Writes a trace made of n sequences of `trace_path`, each with ONE judged field of ONE line changed."""
+    import random
+    rng = random.Random(ctx.seed * 7919 + 13)
+    seqs = [s for s in split_sequences(trace_path) if len(s[1]) >= 2]
+    if not seqs:
+        return None, 0
+    p = os.path.join(ctx.dir("selftest"), name + ".corrupted.ndjson")
+    made = 0
+    with open(p, "w") as f:
+        for attempt in range(n * 6):
+            if made >= n:
+                break
+            _, ls = seqs[rng.randrange(len(seqs))]
+            cand = [i for i in range(1, len(ls)) if any(('"%s":' % k) in ls[i] for k in JUDGED)
+                    and (only_types is None or any(('"t":"%s"' % t) in ls[i] for t in only_types))]
+            if not cand:
+                continue
+            i = rng.choice(cand)
+            ev = json.loads(ls[i])
+            ev2 = _corrupt_in(ev, rng)
+            if ev2 == ev:
+                continue
+            out = list(ls)
+            out[i] = json.dumps(ev2, separators=(",", ":"), sort_keys=True) + "\n"
+            f.writelines(out)
+            made += 1
+    return p, made
+
+
+def run_selftest(ctx, kind, module, cfg, trace_path, consts, name):
+    """Binding demonstration: the validator must reject recorded sequences in which one judged field was changed."""
+    if not ctx.selftest or ctx._in_selftest:
+        return
+    ctx._in_selftest = True
+    try:
+        only = ["res"] if kind == "search" else None
+        p, made = corrupted_copy(ctx, trace_path, ctx.selftest, name, only_types=only)
+        if not made:
+            return
+        states, trans = getattr(ctx, "trace_states", 0), getattr(ctx, "trace_transitions", 0)
+        try:
+            if kind == "search":
+                _, fails = validate_histories(ctx, module, cfg, p, consts=consts, name=name + "-selftest", max_failures=made + 5)
+            else:
+                _, fails = validate_chunks(ctx, module, cfg, p, consts=consts, name=name + "-selftest")
+        except Inconclusive as e:
+            # a corrupted field of the wrong type makes TLC stop with an evaluation error: the trace is not accepted either,
+            # but nothing can be counted
+            ctx.selftest_results[name] = {"corrupted_sequences": made, "rejected": None, "note": "TLC stopped with an evaluation error on the corrupted trace"}
+            log("[selftest] %s: TLC stopped with an evaluation error on the corrupted trace (not accepted, not counted)" % name)
+            return
+        ctx.trace_states, ctx.trace_transitions = states, trans      # not part of the run's coverage numbers
+        ctx.selftest_results[name] = {"corrupted_sequences": made, "rejected": len(fails)}
+        log("[selftest] %s: %d of %d sequences with one corrupted field rejected by %s" % (name, len(fails), made, module))
+        if not fails:
+            raise Inconclusive("selftest: %s rejected none of %d corrupted sequences - the trace specification does not bind" % (module, made))
+    finally:
+        ctx._in_selftest = False
 
 
 def validate_search(ctx, module, cfg, trace_path, consts=None, timeout=900, name=None):
@@ -381,6 +491,7 @@ def validate_histories(ctx, module, cfg, trace_path, consts=None, timeout=900, n
     with cf.ThreadPoolExecutor(max_workers=max(1, NCPU // 2)) as ex:
         for fails in ex.map(one, range(len(chunks))):
             failures += fails
+    run_selftest(ctx, "search", module, cfg, trace_path, consts, name)
     return len(seqs) - len(failures), failures
 
 
@@ -448,6 +559,8 @@ def write_evidence(ctx, coverage, level="model_checking"):
     cov.setdefault("traces_validated_against_impl", ctx.traces)
     cov.setdefault("tlc_cmds", ctx.tlc_cmds)
     cov.setdefault("known_findings_seen", [k[0] for k in ctx.known])
+    if ctx.selftest_results:
+        cov["selftest"] = ctx.selftest_results
     ev = {"property_id": ctx.prop, "tier": ctx.tier, "seed": ctx.seed, "level": level,
           "coverage": cov, "assumptions": ctx.assumptions,
           "wall_s": round(time.time() - ctx.t0, 1), "violations": getattr(ctx, "nviol", 0)}
